@@ -1,8 +1,9 @@
 ------------------------------- MODULE Timing -------------------------------
 (* The beat <-> time engine of simfile.timing.engine.                         *)
 (*                                                                            *)
-(* Positions are integers in units of q = 1/768 beat (a tick, 1/48 beat, is   *)
-(* TICK = 16 q), so probes may lie off the tick grid; events are tick-aligned. *)
+(* Positions are integers in units of q = 1/26880 beat (26880 = 768 * 5 * 7; a tick, *)
+(* 1/48 beat, is TICK = 560 q), so probes and note rows may lie off the tick grid    *)
+(* (rows per measure of 5, 7, 10, ...); events are tick-aligned.                     *)
 (* Timing data:                                                                *)
 (*   td == [bpms   : Seq([b, u]),  bpms[1].b = 0, strictly increasing b        *)
 (*          stops  : Seq([b, u]), delays : Seq([b, u]),                        *)
@@ -15,11 +16,11 @@
 (* All coefficients are positive, so L1 <= L2 componentwise decides            *)
 (* time(L1) <= time(L2) for linear forms of one timeline, whatever the BPMs.   *)
 (* The `u` fields (duration of one q at that BPM / of the pause, in units U =  *)
-(* 1/8192 s) are used only on the "smooth" sub-domain where every value is a   *)
+(* 1/286720 s) are used only on the "smooth" sub-domain where every value is a   *)
 (* small integer and TLC evaluates times itself: Val(td, L).                   *)
 EXTENDS Integers, Sequences, FiniteSets, Rat
 
-TICK == 16
+TICK == 560
 T_WARP == 0  T_WARP_END == 1  T_BPM == 2  T_DELAY == 3  T_DELAY_END == 4  T_STOP == 5  T_STOP_END == 6
 Tags == 0..6
 
